@@ -261,6 +261,38 @@ fn gen_cp(t: &mut Tape, plan: &mut StructPlan, ci: usize, ncp: usize) -> CpPlan 
     if permute {
         t.shuffle(&mut order);
     }
+    // own-position arrangement (seeded change C01-10): behind a ghost member every mapped member's own position in S is ahead of
+    // its in-order position in D, so in-order plans rename all of them. Here a mapped member whose own position exists in D sits
+    // there and needs no index rename, and the members displaced by that fill the holes through index renames.
+    let ghost_in_front = mapped.iter().any(|&fi| (0..fi).any(|j| matches!(roles[j], Role::Ghost { .. })));
+    if matches!(form, "named->tuple()" | "named->bare-tuple") && ghost_in_front && mapped.len() >= 2 && t.chance(2, 3) {
+        let n = mapped.len();
+        let mut slot: Vec<Option<usize>> = vec![None; n];
+        let mut rest: Vec<usize> = vec![];
+        for (mi, &fi) in mapped.iter().enumerate() {
+            if fi < n && slot[fi].is_none() && t.chance(3, 4) {
+                slot[fi] = Some(mi);
+                // mostly a plain member: any instruction on it would carry the index (README "Tuples")
+                if t.chance(3, 4) {
+                    if let Role::Mapped { from, into, cast, .. } = &mut roles[fi] {
+                        *from = ExprT::Id;
+                        *into = ExprT::Id;
+                        *cast = false;
+                    }
+                }
+            } else {
+                rest.push(mi);
+            }
+        }
+        t.shuffle(&mut rest);
+        let mut it = rest.into_iter();
+        for s in slot.iter_mut() {
+            if s.is_none() {
+                *s = it.next();
+            }
+        }
+        order = slot.into_iter().map(|x| x.unwrap()).collect();
+    }
     // order[r] = which mapped field sits at D position r
     let mut pos_of = vec![0usize; mapped.len()];
     for (r, m) in order.iter().enumerate() {
@@ -456,6 +488,9 @@ fn field_instrs(t: &mut Tape, plan: &StructPlan, cp: &CpPlan, i: usize, plain_na
             let default_member = if positional_target { format!("{}", i) } else { own.clone() };
             // README "Tuples": an instruction on a named member facing a positional target always carries the index
             let rename = dm.name != default_member || (positional_target && (t.chance(1, 3) || !from.is_id() || !into.is_id() || *cast));
+            if positional_target && !rename && (0..i).any(|j| matches!(cp.roles[j], Role::Ghost { .. } | Role::GhostFor { .. })) {
+                labels.push("positional:own-position-behind-ghost".into());
+            }
             if *cast {
                 labels.push("role:as_type".into());
                 return vec![Instr::AsType { ded: None, member: if rename || t.chance(1, 4) { Some(dm.name.clone()) } else { None }, ty: "i64".into() }];
